@@ -355,6 +355,8 @@ def _hist_pool():
                  raw_h2=std[:2] + [(":path", "/files/b.txt"), (":authority", "c08.test"), ("connection", "close")]))
     H.append(Req("GET", "/cgi/env.pl?status=302&hdr=loc", [("Cookie", "a=1"), ("Cookie", "b=2"), ("X-Forwarded-For", "10.9.8.7")],
                  tag="h:cookies-xff"))
+    H.append(Req("GET", "/files/b.txt?flag=1", [("X-Forwarded-For", "10.9.8.7"), ("X-Forwarded-Proto", "https")],
+                 tag="h:xff-proto-https"))
     H.append(Req("PUT", "/files/new.txt", body=b"put body", tag="h:put"))
     H.append(Req("GET", "/files/b.txt", [("If-None-Match", "*"), ("Range", "bytes=0-0"), ("X-Variant", "b")], tag="h:inm-star"))
     H.append(Req("GET", "/noka/k.txt", tag="h:noka"))
@@ -622,6 +624,30 @@ def obs_diff(a, b, cross=False):
     if a["complete"] != b["complete"]:
         out.append("completeness %s vs %s" % (a["complete"], b["complete"]))
     return "; ".join(out[:8])
+
+
+def diff_class(a, b, cross=False):
+    """names (not values) of what differs between two observations: stable violation signature"""
+    if a is None or b is None:
+        return "no-response"
+    out = set()
+    if a["status"] != b["status"]:
+        out.add("status")
+    ha = dict((h[0], h[1]) for h in a["headers"] if not (cross and h[0].encode() in DROP_CROSS))
+    hb = dict((h[0], h[1]) for h in b["headers"] if not (cross and h[0].encode() in DROP_CROSS))
+    for k in set(ha) | set(hb):
+        if ha.get(k) != hb.get(k):
+            out.add("header:" + k)
+    ba, bb = a["body"], b["body"]
+    if isinstance(ba, dict) and isinstance(bb, dict):
+        envd = sorted(k for k in set(ba) | set(bb) if ba.get(k) != bb.get(k) and not (cross and k in ENV_DROP_CROSS))
+        if envd:
+            return "env:" + "+".join(envd[:4])
+    elif ba != bb:
+        out.add("body")
+    if a["complete"] != b["complete"]:
+        out.add("complete")
+    return "+".join(sorted(out)[:4]) or "same"
 
 
 def h1_obs(resp, srv):
@@ -1505,6 +1531,7 @@ def run_e2e(ctx):
     with ThreadPoolExecutor(nsrv) as ex:
         results = list(ex.map(lambda a: server_job(bd, a[0], a[1], ctx.quick), zip(shards, sshards)))
     ncase = nun = 0
+    seen_sig = set()
     for si, res in enumerate(results):
         if res["error"]:
             ctx.violation("e2e:server-error", "lighttpd did not survive the C08 stream",
@@ -1553,7 +1580,7 @@ def run_e2e(ctx):
                                       {"property": ctx.pid, "kind": "e2e-cross-version", "probe": q.tag, "probe_idx": pi,
                                        "versions": [0, 0], "diff": obs_diff(o0, b)})
         # (3) probe after history == probe alone
-        for case, o, log, note in res["cases"]:
+        for case, o, log, note in sorted(res["cases"], key=lambda x: len(x[0]["hist"])):
             ncase += 1
             ctx.evaluations += 1
             pi = PROBES.index(case["probe"])
@@ -1563,15 +1590,17 @@ def run_e2e(ctx):
             if o is None:
                 nun += 1
                 ctx.keys["meta:%d:%s:unanswered" % (case["ver"], case["mode"])] += 1
-                if case["mode"] in MUST_ANSWER and ref is not None:
-                    ctx.violation("e2e:unanswered:%s:%s" % (case["mode"], case["probe"].tag),
+                if case["mode"] in MUST_ANSWER and ref is not None and ("un:" + case["mode"]) not in seen_sig:
+                    seen_sig.add("un:" + case["mode"])
+                    ctx.violation("e2e:unanswered:%s" % case["mode"],
                                   "request not answered (%s) although it is answered when sent alone" % note,
                                   {"property": ctx.pid, "kind": "e2e-metamorphic", "case": case_desc(case),
                                    "log": log, "note": note})
                 continue
             ctx.keys["meta:%d:%s:%s:%d" % (case["ver"], case["mode"], kinds, o["status"])] += 1
-            if ref is not None and obs_key(o) != obs_key(ref):
-                ctx.violation("e2e:history:%s:%s" % (case["mode"], case["probe"].tag),
+            if ref is not None and obs_key(o) != obs_key(ref) and ("e2e:history:%s" % diff_class(ref, o)) not in seen_sig:
+                seen_sig.add("e2e:history:%s" % diff_class(ref, o))
+                ctx.violation("e2e:history:%s" % diff_class(ref, o),
                               "response depends on connection history (%s, %s): %s" % (
                                   ["HTTP/1.0", "HTTP/1.1", "HTTP/2"][case["ver"]], case["mode"], obs_diff(ref, o)),
                               {"property": ctx.pid, "kind": "e2e-metamorphic", "case": case_desc(case), "log": log,
@@ -1653,3 +1682,63 @@ def run(ctx):
                         "from the comparison; Accept-Ranges / Cache-Control / Transfer-Encoding / priority and "
                         "SERVER_PROTOCOL are excluded between protocol versions only",
                         "Range on HTTP/1.0 is compared against the request without Range"]
+
+
+# =====================================================================================
+# replay
+# =====================================================================================
+def replay_line(ctx, rep):
+    line = rep["input"]
+    exe, err = C.build_harness("h_reset")
+    base, rc, e = C.run_lines([exe], ["rst none", "rst h2init"])
+    oracle = ResetOracle(base[0], base[1])
+    o, rc, e = C.run_lines([exe], [line])
+    m, _, _ = C.run_model("server", [line])
+    print("input:", line)
+    print("impl :", o, rc)
+    print("model:", m)
+    v = oracle(line, o[0]) if o else "crash"
+    print("oracle:", v)
+    if v or (o != m):
+        print("VIOLATION property=%s replay=(replayed)" % ctx.pid)
+        return 1
+    return 0
+
+
+def replay(ctx, path):
+    rep = json.load(open(path))
+    print(json.dumps({k: rep[k] for k in rep if k not in ("log",)}, indent=1)[:3000])
+    kind = rep.get("kind")
+    if kind in ("correspondence", "property-oracle", "sanitizer-or-crash") and str(rep.get("input", "")).startswith(("rst", "rp")):
+        ctx.lean(())
+        return replay_line(ctx, rep)
+    if kind in ("e2e-metamorphic", "e2e-cross-version"):
+        bd, err = e2e.build_server()
+        if bd is None:
+            print("server build failed", err)
+            return 1
+        srv = new_server(bd)
+        with srv:
+            if kind == "e2e-cross-version":
+                q = PROBES[rep["probe_idx"]]
+                obs = [run_case(srv, dict(ver=v, mode="alone", hist=[], probe=q))[0] for v in rep["versions"]]
+                d = obs_diff(obs[0], obs[1], True)
+                print("replayed:", d or "(equal)")
+                bad = obs_key(obs[0], True) != obs_key(obs[1], True)
+            else:
+                cd = rep["case"]
+                ver = ["HTTP/1.0", "HTTP/1.1", "HTTP/2"].index(cd["ver"])
+                case = dict(ver=ver, mode=cd["mode"], hist=[ALL_REQS[i] for i in cd["hist_idx"]],
+                            probe=PROBES[cd["probe_idx"]], nseg=cd.get("nseg", 1))
+                ref, _, n0 = run_case(srv, dict(ver=ver, mode="alone", hist=[], probe=case["probe"]))
+                o, log, note = run_case(srv, case)
+                print("alone   :", None if ref is None else ref["status"], n0)
+                print("in case :", None if o is None else o["status"], note, log)
+                print("replayed:", obs_diff(ref, o) or "(equal)")
+                bad = (o is None and ref is not None and case["mode"] in MUST_ANSWER) or \
+                      (o is not None and ref is not None and obs_key(o) != obs_key(ref)) or ref is None
+        if bad:
+            print("VIOLATION property=%s replay=(replayed)" % ctx.pid)
+            return 1
+        return 0
+    return 0
